@@ -81,6 +81,7 @@ func c09Build(cs []tcue, styled bool) (*astisub.Subtitles, []string) {
 		rg = &astisub.Region{ID: "rg", InlineStyle: &astisub.StyleAttributes{WebVTTWidth: "40%"}}
 		s.Styles["st"], s.Regions["rg"] = st, rg
 	}
+	someMetadata(s, len(cs))
 	snaps := make([]string, len(cs))
 	for k, c := range cs {
 		it := decorate(textItem(time.Duration(c.S), time.Duration(c.E), c.T), k)
@@ -254,7 +255,7 @@ func srtTime(ns int64) string {
 
 func init() {
 	randomN := func(tier string) int64 { return tierN(tier, 20000, 2000000) }
-	cliN := func(tier string) int64 { return tierN(tier, 24, 200) }
+	cliN := func(tier string) int64 { return tierN(tier, 96, 1000) }
 	fw.Register(&fw.Property{
 		ID:    "C09",
 		Level: "exploration",
